@@ -150,12 +150,11 @@ theorem updNode_some (sv : Server) (i k : Nat) (f : Node → Node) (s : Store) (
 
 theorem updNode_none (sv : Server) (i k : Nat) (f : Node → Node) (h : sv.node i k = none) :
     updNode sv i k f = sv := by
-  unfold updNode
   cases hs : sv i with
-  | none => rfl
+  | none => simp [updNode, hs]
   | some s =>
     cases hk : s k with
-    | none => rfl
+    | none => simp [updNode, hs, hk]
     | some n => simp [Server.node, hs, hk] at h
 
 theorem node_updNode (sv : Server) (i k : Nat) (f : Node → Node) (i' k' : Nat) :
